@@ -35,11 +35,14 @@ Definition codes : list N := [1; 2; 3; 4; 5; 6; 7; 8; 9; 10; 11; 12; 13; 14; 15]
 (** "CHMUX\0" *)
 Definition magic : list N := [67; 72; 77; 85; 88; 0].
 
-(** timeout on the wire: whole milliseconds, 0 = none, saturating at 2^64-1 *)
+(** timeout on the wire: whole milliseconds, 0 = none, a present timeout at least 1 and saturating
+    at 2^64-1 *)
 Definition wire_timeout (t : option N) : N :=
   match t with
   | None => 0
-  | Some ns => let ms := ns / 1000000 in if ms <? 18446744073709551615 then ms else 18446744073709551615
+  | Some ns =>
+      let ms := ns / 1000000 in
+      if ms <? 1 then 1 else if ms <? 18446744073709551615 then ms else 18446744073709551615
   end.
 
 Definition layout3 (m : msg) : list field :=
